@@ -10,6 +10,7 @@ pub mod c09;
 pub mod c10;
 pub mod c11;
 pub mod c13;
+pub mod c14;
 pub mod c16;
 pub mod c17;
 pub mod c18;
@@ -32,6 +33,7 @@ pub fn run(id: &str, tier: Tier) -> Option<Report> {
         "C10" => c10::run(tier),
         "C11" => c11::run_check(tier),
         "C13" => c13::run(tier),
+        "C14" => c14::run(tier),
         "C16" => c16::run(tier),
         "C17" => c17::run(tier),
         "C18" => c18::run(tier),
